@@ -5,6 +5,7 @@ import (
 	"fmt"
 	"io"
 	"math/rand"
+	"os"
 	"strings"
 	"testing/iotest"
 
@@ -551,6 +552,9 @@ func genC07(r *rand.Rand, t *Trace, thorough bool) {
 					if b.src.probe(b.queries, b.words) != l.probe(b.queries, b.words) {
 						diffs = 2
 						t.Stat("c07.continuation_differs")
+					} else if ck == 4 && !hnswAcceptsAdds(r, l.vec, dimOf(b)) {
+						diffs = 2
+						t.Stat("c07.reloaded_hnsw_refuses_adds")
 					}
 					t.Stat("c07.continuation." + kindNames[ck])
 				} else {
@@ -583,6 +587,24 @@ func dimOf(b builtState) int {
 // continueBoth applies one random continuation (adds incl. re-adds and empty texts, removals, a flush)
 // to the source and to the reloaded index and reports whether every call had the same outcome on both.
 // HNSW draws insertion levels from its own generator, so its continuation only removes and flushes.
+
+// hnswAcceptsAdds: a reloaded HNSW graph accepts further adds. Levels are drawn afresh, so the answers of
+// source and copy may differ from here on -- but every add must come back without an error or a panic.
+func hnswAcceptsAdds(r *rand.Rand, hn comet.VectorIndex, dim int) bool {
+	for i := 0; i < 30; i++ {
+		id := uint32(300 + i)
+		v := histVec(r, dim, 1)
+		var e error
+		if catchPanic(func() { e = hn.Add(*comet.NewVectorNodeWithID(id, cloneVec(v))) }) || e != nil {
+			if os.Getenv("VERIF_DEBUG") != "" {
+				fmt.Fprintln(os.Stderr, "hnsw continuation add failed:", e, "dim", dim, "veclen", len(v))
+			}
+			return false // (after a panic inside Add its lock is still held: nothing more can be asked)
+		}
+	}
+	return true
+}
+
 func continueBoth(r *rand.Rand, b builtState, l loaded, dim int) bool {
 	same := true
 	nops := 2 + r.Intn(6)
